@@ -1897,6 +1897,7 @@ func buildErrorsData(e *expr.HTTPEndpointExpr, sd *ServiceData) []*ErrorGroupDat
 				ContentType:  contentType,
 				Cookies:      cookies,
 				ErrorHeader:  v.Name,
+				ResultAttr:   errorBodyAttribute(v),
 				ServerBody:   serverBodyData,
 				ClientBody:   clientBodyData,
 				ResultInit:   init,
@@ -1940,6 +1941,18 @@ func buildErrorsData(e *expr.HTTPEndpointExpr, sd *ServiceData) []*ErrorGroupDat
 		}
 	}
 	return vals
+}
+
+// errorBodyAttribute returns the Go field of the error value that an error
+// response defined with Body("attribute") sends as its body, "" otherwise.
+func errorBodyAttribute(v *expr.HTTPErrorExpr) string {
+	if v.Response.Body == nil || !expr.IsObject(v.ErrorExpr.Type) {
+		return ""
+	}
+	if o, ok := v.Response.Body.Meta["origin:attribute"]; ok && len(o) > 0 {
+		return codegen.Goify(o[0], true)
+	}
+	return ""
 }
 
 // buildRequestBodyType builds the TypeData for a request body. The data makes
